@@ -23,3 +23,11 @@ Inductive head :=
 | HNeed.                         (* clauses embedded in a need: what precedes is not modelled *)
 
 Record verb := mkverb { vname : str; vhead : head; vstrict : bool; vclauses : list (str * ckind) }.
+
+(* content check of a one-token clause, as extracted from the branch *)
+Inductive vkind :=
+| VAny                           (* no check in the branch (or not a one-token clause) *)
+| VNum                           (* Convert2Num must accept it: C17's converters, not modelled here *)
+| VOneOf (l : list str)          (* the token must be one of the list / a key of the option table *)
+| VOneOfCap (l : list str)       (* ... after str.capitalize() *)
+| VName.                         (* verifyName: REO_IdentPub and not Reserved *)
